@@ -1,5 +1,5 @@
 """C04 - load, save, load loses nothing; a second save changes nothing (structural clauses)."""
-from ..rules import serial
+from ..rules import readers, serial
 
 EXPLANATION = (
     "Static rule checking of 'whenever a text loads it can be serialized' and of the idempotence of the normalisers: R-NULL "
@@ -23,7 +23,9 @@ def c1(ctx):
 
 def c2(ctx):
     serial.reader_keynorm(ctx)
-    serial.reader_multi(ctx)
+    readers.sm_simfile_table(ctx)
+    readers.ssc_simfile_table(ctx)
+    readers.ssc_chart_table(ctx)
     serial.table_spec(ctx)
 
 
